@@ -220,6 +220,62 @@ def run(ctx):
                     if got != expected and not (expected == 'false' and got == 'error'):
                         ctx.violation('query result is not the first responding provider\'s answer (or a failure)',
                                       {'op': 'query %s' % qname, 'outcomes': outs, 'max_errors': maxe, 'observed': got, 'expected': expected})
+    # ---- histories of cached queries (gettransaction on several txids): the Lean cache + provider machine --------------
+    txs = []
+    for j in range(3):
+        kk = Key(1000 + j)
+        tj = Transaction(network='bitcoin', witness_type='segwit')
+        tj.add_input(bytes([j + 1]) * 32, 0, keys=[kk], script_type='sig_pubkey', value=50000, witness_type='segwit')
+        tj.add_output(40000, lock_script=b'\x00\x14' + bytes([j]) * 20)
+        tj.sign([kk])
+        txs.append(tj.raw_hex())
+
+    def tagged(rawj, tag):
+        from datetime import datetime, timezone
+        tt = Transaction.parse_hex(rawj)
+        tt.block_height = 700000 + tag
+        tt.confirmations = 100001
+        tt.date = datetime(2021, 1, 1, tzinfo=timezone.utc)
+        tt.status = 'confirmed'
+        for inp in tt.inputs:
+            inp.value = 50000
+        tt.update_totals()
+        return tt
+
+    for hidx in range(12 if not T else 60):
+        srv = new_service(2)
+        srv.max_providers = 1
+        qlines, real = [], []
+        for step in range(rng.randrange(3, 9)):
+            key = rng.randrange(3)
+            maxe = rng.choice([1, 2, 4])
+            outs = [rng.choice(['ok', 'ok', 'empty', 'raise']) for _ in range(2)]
+            srv.max_errors = maxe
+            for i in range(2):
+                tag = step * 10 + i
+                script[i] = {'blockcount': ('ok', 800000),
+                             'gettransaction': {'ok': ('ok', (lambda rawj, tg: (lambda _i: tagged(rawj, tg)))(txs[key], tag)), 'empty': ('empty',), 'raise': ('raise',)}[outs[i]]}
+                srv.providers['fake%d' % i]['priority'] = 50 - i
+            qlines.append('%d:1:%d:%s' % (key, maxe, ','.join('ok%d' % (step * 10 + i) if o == 'ok' else o for i, o in enumerate(outs))))
+            try:
+                txid = Transaction.parse_hex(txs[key]).txid
+                r = srv.gettransaction(txid)
+                if r is False or r is None:
+                    real.append('false')
+                elif r.txid == txid and r.raw_hex() == txs[key]:
+                    real.append('value %d' % (r.block_height - 700000))
+                else:
+                    real.append('fabricated')
+            except ServiceError:
+                real.append('error')
+        model = run_driver(['svc_hist ' + ';'.join(qlines)])[0].split(' | ')[0].split(';')
+        ctx.evals += len(real)
+        ctx.traces += 1
+        ctx.count('cached-history')
+        canon = lambda x: 'error' if x == 'false' else x          # both are failures, not answers
+        if [canon(x) for x in real] != [canon(x) for x in model]:
+            ctx.violation('a history of cached gettransaction queries disagrees with the cache + provider machine',
+                          {'op': 'svc_hist', 'line': ';'.join(qlines), 'observed': real, 'model': model})
     ctx.assumptions += ['providers are in-process fakes; real network behaviour (timeouts, partial HTTP answers) is represented by the outcome classes',
                         'estimatefee clamps to the network fee limits and substitutes the default for a falsy answer: a documented normalisation']
 
